@@ -42,7 +42,9 @@ def gen_xslt():
     facts["pi_flushes"] = flushes_unconditionally(r"XSLTEngineImpl::processingInstruction\s*\([^)]*\)\s*\{", "XSLTEngineImpl::processingInstruction")
     facts["end_flushes"] = flushes_unconditionally(r"XSLTEngineImpl::endElement\s*\(\s*const\s+XalanDOMChar\s*\*\s*name\s*\)\s*\{", "XSLTEngineImpl::endElement")
     m = srcfacts.need(r"case\s+XalanNode::ATTRIBUTE_NODE\s*:\s*(.*?)break\s*;", eng, "ATTRIBUTE_NODE case of cloneToResultTree")
-    facts["clone_attr_guarded"] = bool(re.match(r"\s*if\s*\(\s*isElementPending\s*\(\s*\)\s*==\s*true\s*\)\s*\{\s*addResultAttribute", m.group(1)))
+    # the whole case is under the guard; what is added inside (incl. the prefix fix-up of C14/KN9) is not modelled here
+    facts["clone_attr_guarded"] = bool(re.match(r"\s*if\s*\(\s*isElementPending\s*\(\s*\)\s*==\s*true\s*\)\s*\{", m.group(1))) and \
+        not re.search(r"addResultAttribute", re.split(r"\belse\s*\{\s*const\s+ECGetCachedString\s+theGuard", m.group(1))[-1] if re.search(r"\belse\s*\{\s*const\s+ECGetCachedString\s+theGuard", m.group(1)) else "addResultAttribute")
     hpp = srcfacts.strip_comments(srcfacts.read("XSLT/XSLTEngineImpl.hpp"))
     b = body_of(hpp, r"\bisElementPending\s*\(\s*\)\s*const\s*\{", "XSLTEngineImpl::isElementPending")
     facts["pending_is_nonempty_name"] = bool(re.search(r"!\s*getPendingElementNameImpl\s*\(\s*\)\s*\.\s*empty\s*\(\s*\)", b))
